@@ -1170,6 +1170,73 @@ def case_voxdots(ctx, case):
                    f'make_dotprops(VoxelNeuron, k={case["k"]})')
 
 
+def gen_dense(r):
+    """Few distinct locations with large multiplicities: single voxels receive > 255 and > 65535 points."""
+    pitch = r.choice([Fr(1), Fr(2), Fr(8), Fr(1, 2)])
+    nloc = r.randint(2, 8)
+    locs = [[tok(Fr(r.randint(-24, 24), 4) * pitch) for _ in range(3)] for _ in range(nloc)]
+    big = r.choice([[300], [256], [255, 257], [65536], [70000], [65535, 300], [1000, 66000]])
+    mult = [r.choice([1, 2, 5, 40]) for _ in range(nloc)]
+    for b in big:
+        mult[r.randrange(nloc)] = b
+    P = [[fr(c) for c in p] for p in locs]
+    bounds = None
+    if r.random() < 0.4:
+        k = r.randrange(3)
+        lo = [min(p[a] for p in P) - pitch * r.randint(0, 2) for a in range(3)]
+        hi = [max(p[a] for p in P) + pitch * r.randint(0, 2) for a in range(3)]
+        hi[k] = max(lo[k], hi[k] - pitch * r.randint(1, 4))            # clips some locations
+        bounds = {'lo': [tok(c) for c in lo], 'hi': [tok(c) for c in hi]}
+    return {'locs': locs, 'mult': mult, 'pitch': tok(pitch), 'bounds': bounds, 'ntype': r.choice(['dotprops', 'dotprops', 'mesh', 'tree']),
+            'units': r.choice([None, '8 nm'])}
+
+
+def case_dense(ctx, case):
+    """`counts=True` on dense clouds: the count of a voxel may exceed 255 / 65535; the grid must hold it and the total must be conserved."""
+    locs = [[fr(c) for c in p] for p in case['locs']]
+    mult = [int(m) for m in case['mult']]
+    pitch = fr(case['pitch'])
+    P = np.array([[float(c) for c in p] for p in locs], dtype=float).repeat(mult, axis=0)
+    x = build_neuron(case['ntype'], P, case['units'])
+    u = units_xyz_mag(x)
+    b = case['bounds']
+    if b is None:
+        lo = [min(p[k] for p in locs) for k in range(3)]; hi = [max(p[k] for p in locs) for k in range(3)]
+        bounds = None
+    else:
+        lo, hi = [fr(c) for c in b['lo']], [fr(c) for c in b['hi']]
+        bounds = np.array([[float(l), float(h)] for l, h in zip(lo, hi)])
+    # model: voxel index of every distinct location (Lean), multiplicities added up per voxel
+    m = kv(ctx.ask('c19.vox ' + ' | '.join([p3tok([pitch] * 3), p3tok(lo), p3tok(hi), p3tok(u), ';'.join(p3tok(p) for p in locs + [lo])])))
+    ix = [tuple(int(t) for t in item.split(',')) for item in m['ix'].split(';') if item]
+    shape = tuple(int(t) for t in m['shape'].split(','))
+    want = {}
+    for i_, mu in zip(ix[:-1], mult):
+        idx = tuple(i_[k] - ix[-1][k] for k in range(3))
+        if all(0 <= idx[k] < shape[k] for k in range(3)):
+            want[idx] = want.get(idx, 0) + mu
+    n_in, top = sum(want.values()), max(want.values(), default=0)
+    ctx.count('dense_max_points_per_voxel', '>65535' if top > 65535 else ('>255' if top > 255 else '<=255'))
+    ctx.count('dense_clipped', n_in < sum(mult))
+    try:
+        v = navis.voxelize(x, pitch=float(pitch), bounds=bounds, counts=True)
+    except Exception as e:
+        ctx.oracle(False, f'voxelize(counts=True) on a dense cloud raises {type(e).__name__}: {str(e)[:120]}', case)
+        return
+    grid = np.asarray(v.grid)
+    ctx.corr(list(grid.shape), list(shape), 'dense cloud: grid shape', case)
+    tot = int(grid.astype(object).sum()) if grid.size < 4096 else int(grid.sum(dtype=np.int64))
+    ctx.oracle(tot == n_in, f'counts=True: grid total {tot} != {n_in} points whose voxel lies inside the grid ({sum(mult)} points; the fullest '
+                            f'voxel receives {top} points, grid dtype {grid.dtype})', case)
+    got = {tuple(int(t) for t in r_): int(grid[tuple(r_)]) for r_ in np.argwhere(grid != 0)}
+    wrong = [(k_, got.get(k_, 0), w_) for k_, w_ in sorted(want.items()) if got.get(k_, 0) != w_] + \
+            [(k_, g_, 0) for k_, g_ in sorted(got.items()) if k_ not in want]
+    ctx.oracle(not wrong, f'counts=True: per-voxel counts differ from the number of points in the voxel (voxel, stored, points): {wrong[:3]} '
+                          f'(grid dtype {grid.dtype})', case)
+    ok_dtype = grid.dtype.kind in 'iu' and np.iinfo(grid.dtype).max >= top
+    ctx.oracle(ok_dtype, f'counts=True: grid dtype {grid.dtype} cannot hold the largest per-voxel count {top}', case)
+
+
 def gen_skel(r):
     kind = r.choice(['tube', 'tube', 'cylinder', 'capsule', 'box', 'two'])
     if kind == 'tube':
@@ -1215,6 +1282,8 @@ def gen_cases(ctx):
         yield 'nlist', gen_nlist(r)
     for _ in range(ctx.budget(12, 300)):
         yield 'voxdots', gen_voxdots(r)
+    for _ in range(ctx.budget(10, 120)):
+        yield 'dense', gen_dense(r)
     if HAVE_SKIMAGE:
         for _ in range(ctx.budget(100, 1500)):
             yield 'vmesh', gen_vmesh(r)
@@ -1224,7 +1293,7 @@ def gen_cases(ctx):
 
 
 RUNNERS = {'round': case_round, 'vox': case_vox, 'tan': case_tan, 'dots': case_dots, 'tube': case_tube, 'vmesh': case_vmesh,
-           'skel': case_skel, 'nlist': case_nlist, 'voxdots': case_voxdots}
+           'skel': case_skel, 'nlist': case_nlist, 'voxdots': case_voxdots, 'dense': case_dense}
 
 
 def nontrivial(kind, case):
